@@ -12,10 +12,32 @@ Proof.
   - f_equal. lia.
 Qed.
 
+Lemma ext_eqb_eq a b : ext_eqb a b = true <-> a = b.
+Proof.
+  destruct a as [i p], b as [j q]. unfold ext_eqb. cbn [fst snd].
+  rewrite andb_true_iff, Z.eqb_eq, list_eqb_Z_eq. split; [intros [-> ->]; reflexivity|intros H; inversion H; auto].
+Qed.
+
+Lemma list_ext_eqb_eq l1 l2 : list_eqb ext_eqb l1 l2 = true <-> l1 = l2.
+Proof.
+  revert l2; induction l1 as [|x xs IH]; intros [|y ys]; simpl; split; intros H;
+    try discriminate; auto.
+  - apply andb_true_iff in H as [H1 H2]. apply ext_eqb_eq in H1. apply IH in H2. congruence.
+  - inversion H; subst. apply andb_true_iff. split; [apply ext_eqb_eq; reflexivity|apply IH; reflexivity].
+Qed.
+
+Lemma hext_eqb_eq a b : hext_eqb a b = true <-> a = b.
+Proof.
+  destruct a as [[a1 a2] a3], b as [[b1 b2] b3]. unfold hext_eqb. cbn [fst snd].
+  rewrite !andb_true_iff, Z.eqb_eq, Bool.eqb_true_iff, list_ext_eqb_eq. split.
+  - intros [[-> ->] ->]. reflexivity.
+  - intros H; inversion H; auto.
+Qed.
+
 Lemma hdr_eqb_refl h : hdr_eqb h h = true.
 Proof.
   unfold hdr_eqb. rewrite !Z.eqb_refl, !Bool.eqb_reflx. simpl.
-  apply list_eqb_Z_eq. reflexivity.
+  apply andb_true_iff. split; [apply list_eqb_Z_eq; reflexivity|apply hext_eqb_eq; reflexivity].
 Qed.
 
 Lemma pair_ok_inv (a b : rp) (s1 s2 : Z) : (NPOk a, s1) = (NPOk b, s2) -> a = b.
@@ -35,13 +57,13 @@ Proof.
   destruct (h_pad h) eqn:Ep; rewrite ?andb_true_l, ?andb_false_l.
   - destruct ((h_padsize h =? 0) && (0 <? slen pay)) eqn:Eo.
     + destruct (last pay 0 >? slen pay) eqn:En; [discriminate|].
-      intros H; apply pair_ok_inv in H; rewrite <- H; clear H. cbv beta iota delta [rp_seq rp_hdr rp_pay hdr_nopad hdr_rtx h_ssrc h_pt h_pad h_padsize h_marker h_ts h_csrc].
+      intros H; apply pair_ok_inv in H; rewrite <- H; clear H. cbv beta iota delta [rp_seq rp_hdr rp_pay hdr_nopad hdr_rtx h_ssrc h_pt h_pad h_padsize h_marker h_ts h_csrc h_x].
       split; [reflexivity|]. split; [lia|]. repeat (split; [reflexivity|]).
       change (slen pay) with (len pay). rewrite (firstn_prefixed (be16 (h_seq h)) pay) by (unfold len, slen in *; lia).
       reflexivity.
-    + intros H; apply pair_ok_inv in H; rewrite <- H; clear H. cbv beta iota delta [rp_seq rp_hdr rp_pay hdr_nopad hdr_rtx h_ssrc h_pt h_pad h_padsize h_marker h_ts h_csrc].
+    + intros H; apply pair_ok_inv in H; rewrite <- H; clear H. cbv beta iota delta [rp_seq rp_hdr rp_pay hdr_nopad hdr_rtx h_ssrc h_pt h_pad h_padsize h_marker h_ts h_csrc h_x].
       split; [reflexivity|]. split; [reflexivity|]. repeat (split; [reflexivity|]). reflexivity.
-  - intros H; apply pair_ok_inv in H; rewrite <- H; clear H. cbv beta iota delta [rp_seq rp_hdr rp_pay hdr_nopad hdr_rtx h_ssrc h_pt h_pad h_padsize h_marker h_ts h_csrc].
+  - intros H; apply pair_ok_inv in H; rewrite <- H; clear H. cbv beta iota delta [rp_seq rp_hdr rp_pay hdr_nopad hdr_rtx h_ssrc h_pt h_pad h_padsize h_marker h_ts h_csrc h_x].
     split; [reflexivity|]. split; [reflexivity|]. repeat (split; [try reflexivity; try exact Ep|]). reflexivity.
 Qed.
 
@@ -71,10 +93,10 @@ Qed.
 (* ---- the boolean oracle is the Prop-level specification ---- *)
 Lemma hdr_eqb_eq a b : hdr_eqb a b = true <-> a = b.
 Proof.
-  destruct a as [a1 a2 a3 a4 a5 a6 a7 a8], b as [b1 b2 b3 b4 b5 b6 b7 b8]. unfold hdr_eqb.
-  cbn [h_pad h_padsize h_marker h_pt h_seq h_ts h_ssrc h_csrc].
-  rewrite !andb_true_iff, !Z.eqb_eq, !Bool.eqb_true_iff, list_eqb_Z_eq. split.
-  - intros [[[[[[[-> ->] ->] ->] ->] ->] ->] ->]. reflexivity.
+  destruct a as [a1 a2 a3 a4 a5 a6 a7 a8 a9], b as [b1 b2 b3 b4 b5 b6 b7 b8 b9]. unfold hdr_eqb.
+  cbn [h_pad h_padsize h_marker h_pt h_seq h_ts h_ssrc h_csrc h_x].
+  rewrite !andb_true_iff, !Z.eqb_eq, !Bool.eqb_true_iff, list_eqb_Z_eq, hext_eqb_eq. split.
+  - intros [[[[[[[[-> ->] ->] ->] ->] ->] ->] ->] ->]. reflexivity.
   - intros H; inversion H; subst. tauto.
 Qed.
 
@@ -82,6 +104,6 @@ Theorem is_resend_ofb_iff rtx rs rpt h pay h' pay' :
   is_resend_ofb rtx rs rpt h pay h' pay' = true <-> is_resend_of rtx rs rpt h pay h' pay'.
 Proof.
   unfold is_resend_ofb, is_resend_of. destruct rtx.
-  - rewrite !andb_true_iff, !Z.eqb_eq, negb_true_iff, Bool.eqb_true_iff, !list_eqb_Z_eq. tauto.
+  - rewrite !andb_true_iff, !Z.eqb_eq, negb_true_iff, Bool.eqb_true_iff, !list_eqb_Z_eq, hext_eqb_eq. tauto.
   - rewrite andb_true_iff, hdr_eqb_eq, list_eqb_Z_eq. tauto.
 Qed.
